@@ -104,6 +104,9 @@ def check_date(ctx, Epoch, y, m, d, klass, names=False):
     ctx.predicate('mjd', e.mjd() == j - 2400000.5, inp, None, klass)
     # structural tie
     ctx.case('epoch_ymd', [y, m, d], enc(j), q='exact', klass='epoch_ymd/' + klass)
+    if len(ctx.samples) < 6 and (y * 13 + m * 7 + d) % 97 == 0:
+        ctx.sample({'call': 'Epoch(%d, %d, %d)' % (y, m, d), 'jde': j, 'independent_day_count': exp,
+                    'get_date': list(back), 'model_line': 'F epoch_ymd %d %d %d' % (y, m, d)})
     e2 = Epoch(); e2._jde = j
     ctx.case('get_date', [j], run_impl(e2.get_date), q='exact', klass='get_date/' + klass)
     if names:
@@ -202,8 +205,6 @@ def generate(ctx, shard=0, nshards=1):
             d = rng.randint(1, civil_mlen(y, m))
             if civil_valid(y, m, d):
                 check_date(ctx, Epoch, y, m, d, 'random', names=(rng.random() < 0.02))
-    ctx.sample({'call': 'Epoch(1582, 10, 4).jde()', 'expected': 2299159.5})
-    ctx.sample({'call': 'Epoch(1582, 10, 15).get_date()', 'expected': [1582, 10, 15.0]})
 
 
 def replay(case):
